@@ -53,7 +53,7 @@ const (
 
 var yieldNames = [...]string{"start", "instr", "before-op", "after-op", "native", "write", "other"}
 
-const maxG = 512
+const maxG = 4096
 
 // Case is one case of a pending channel operation.
 type Case struct {
@@ -198,7 +198,9 @@ func (s *Sim) RegisterContext(ctx context.Context) {
 //go:norace
 func (s *Sim) newG(id string, vmOwned bool) *G {
 	if s.ng >= maxG {
-		panic("sched: too many goroutines")
+		// A limit of the simulator, never a verdict on the code under test.
+		s.Mismatch = "simulator limit: more than 4096 goroutines in one simulation"
+		s.ng = maxG - 1
 	}
 	g := &G{ID: id, idx: s.ng, sim: s, state: stNew, chosen: -1, vmOwned: vmOwned}
 	g.cond = sync.NewCond(&g.mu)
@@ -430,8 +432,11 @@ func setCase(c *Case, dir reflect.SelectDir, ch reflect.Value) {
 //go:norace
 func hookBeforeRecv(slot *scriggo.SimSlot, ch reflect.Value) {
 	g := gOf(slot)
-	if g == nil || g.sim != getActive() {
+	if g == nil {
 		return
+	}
+	if g.sim != getActive() {
+		g.parkForever() // the simulation is over: never run outside its control
 	}
 	g.ncases = 1
 	g.isSelect = false
@@ -442,8 +447,11 @@ func hookBeforeRecv(slot *scriggo.SimSlot, ch reflect.Value) {
 //go:norace
 func hookBeforeSend(slot *scriggo.SimSlot, ch reflect.Value) {
 	g := gOf(slot)
-	if g == nil || g.sim != getActive() {
+	if g == nil {
 		return
+	}
+	if g.sim != getActive() {
+		g.parkForever() // the simulation is over: never run outside its control
 	}
 	g.ncases = 1
 	g.isSelect = false
@@ -454,8 +462,11 @@ func hookBeforeSend(slot *scriggo.SimSlot, ch reflect.Value) {
 //go:norace
 func hookBeforeSelect(slot *scriggo.SimSlot, cases []reflect.SelectCase) {
 	g := gOf(slot)
-	if g == nil || g.sim != getActive() {
+	if g == nil {
 		return
+	}
+	if g.sim != getActive() {
+		g.parkForever() // the simulation is over: never run outside its control
 	}
 	if len(cases) > len(g.cases) {
 		panic("sched: select with too many cases")
@@ -483,8 +494,11 @@ func hookBeforeSelect(slot *scriggo.SimSlot, cases []reflect.SelectCase) {
 //go:norace
 func hookAfterChanOp(slot *scriggo.SimSlot, cases []reflect.SelectCase, chosen int) {
 	g := gOf(slot)
-	if g == nil || g.sim != getActive() {
+	if g == nil {
 		return
+	}
+	if g.sim != getActive() {
+		g.parkForever() // the simulation is over: never run outside its control
 	}
 	if cases != nil && g.chosen >= 0 {
 		for i := range cases {
